@@ -419,4 +419,149 @@ theorem ranked_of_acyclicSpec (n : Nat) (g : Graph) (hc : Closed n g) (h : acycl
   exact survive_lt _ n _ (List.isEmpty_iff.1 h) v w he (List.mem_range.2 hv) (List.mem_range.2 hwn)
 
 
+/-! ### the classical step: no closed walk ⇒ peeling empties the graph (pigeonhole) -/
+
+/-- consecutive elements are joined by edges. -/
+def IsWalk (succ : Nat → List Nat) : List Nat → Prop
+  | [] => True
+  | [_] => True
+  | u :: v :: t => v ∈ succ u ∧ IsWalk succ (v :: t)
+
+theorem IsWalk.tail {succ : Nat → List Nat} {x : Nat} {t : List Nat} (h : IsWalk succ (x :: t)) : IsWalk succ t := by
+  cases t with
+  | nil => trivial
+  | cons y t' => exact h.2
+
+theorem walk_path {succ : Nat → List Nat} : ∀ (t : List Nat) (x y : Nat), IsWalk succ (x :: t) → y ∈ t → Path succ x y := by
+  intro t
+  induction t with
+  | nil => intro x y _ hy; cases hy
+  | cons z t' ih =>
+    intro x y hw hy
+    rcases List.mem_cons.1 hy with rfl | hy
+    · exact Path.single hw.1
+    · exact Path.cons hw.1 (ih z y hw.2 hy)
+
+theorem walk_dup_cycle {succ : Nat → List Nat} : ∀ (l : List Nat), IsWalk succ l → ¬ l.Nodup → ∃ v, Path succ v v := by
+  intro l
+  induction l with
+  | nil => intro _ h; exact absurd List.nodup_nil h
+  | cons x t ih =>
+    intro hw hn
+    by_cases hx : x ∈ t
+    · exact ⟨x, walk_path t x x hw hx⟩
+    · exact ih hw.tail (fun hnd => hn (List.nodup_cons.2 ⟨hx, hnd⟩))
+
+/-- pigeonhole: a duplicate-free list inside `A` is no longer than `A`. -/
+theorem nodup_length_le : ∀ (A l : List Nat), (∀ x ∈ l, x ∈ A) → l.Nodup → l.length ≤ A.length := by
+  intro A
+  induction A with
+  | nil =>
+    intro l hs _
+    cases l with
+    | nil => simp
+    | cons x t => exact absurd (hs x List.mem_cons_self) (by simp)
+  | cons a A' ih =>
+    intro l hs hnd
+    by_cases ha : a ∈ l
+    · have hnd' : (l.erase a).Nodup := hnd.erase a
+      have hs' : ∀ x ∈ l.erase a, x ∈ A' := by
+        intro x hx
+        have hx' := (List.Nodup.mem_erase_iff hnd).1 hx
+        rcases List.mem_cons.1 (hs x hx'.2) with e | e
+        · exact absurd e hx'.1
+        · exact e
+      have := ih (l.erase a) hs' hnd'
+      have hl := List.length_erase_of_mem ha
+      have hpos : 0 < l.length := List.length_pos_of_mem ha
+      simp only [List.length_cons]
+      omega
+    · have hs' : ∀ x ∈ l, x ∈ A' := by
+        intro x hx
+        rcases List.mem_cons.1 (hs x hx) with e | e
+        · exact absurd (e ▸ hx) ha
+        · exact e
+      have := ih l hs' hnd
+      simp only [List.length_cons]; omega
+
+theorem exists_walk {succ : Nat → List Nat} (A : List Nat) (hA : ∀ v ∈ A, ∃ w ∈ succ v, w ∈ A) :
+    ∀ k v, v ∈ A → ∃ l, IsWalk succ (v :: l) ∧ l.length = k ∧ ∀ x ∈ v :: l, x ∈ A := by
+  intro k
+  induction k with
+  | zero => intro v hv; exact ⟨[], trivial, rfl, by simpa using hv⟩
+  | succ k ih =>
+    intro v hv
+    obtain ⟨w, hw, hwA⟩ := hA v hv
+    obtain ⟨l, hl, hlen, hin⟩ := ih w hwA
+    refine ⟨w :: l, ⟨hw, hl⟩, by simp [hlen], ?_⟩
+    intro x hx
+    rcases List.mem_cons.1 hx with rfl | hx
+    · exact hv
+    · exact hin x hx
+
+/-- a non-empty set in which every node has a successor contains a closed walk. -/
+theorem cycle_of_closed_set {succ : Nat → List Nat} (A : List Nat) (hne : A ≠ [])
+    (hA : ∀ v ∈ A, ∃ w ∈ succ v, w ∈ A) : ∃ v, Path succ v v := by
+  obtain ⟨v, hv⟩ := List.exists_mem_of_ne_nil A hne
+  obtain ⟨l, hw, hlen, hin⟩ := exists_walk A hA A.length v hv
+  apply walk_dup_cycle (v :: l) hw
+  intro hnd
+  have := nodup_length_le A (v :: l) hin hnd
+  simp only [List.length_cons, hlen] at this
+  omega
+
+theorem peelN_nil (edges : List (Nat × Nat)) : ∀ k, peelN edges k [] = [] := by
+  intro k; induction k with
+  | zero => rfl
+  | succ k ih => simp only [peelN, peel, List.filter_nil]; exact ih
+
+theorem peel_fixpoint_or_shrink (edges : List (Nat × Nat)) :
+    ∀ k alive, peelN edges k alive ≠ [] →
+      (∃ A, A ≠ [] ∧ peel edges A = A) ∨ (peelN edges k alive).length + k ≤ alive.length := by
+  intro k
+  induction k with
+  | zero => intro alive _; right; simp [peelN]
+  | succ k ih =>
+    intro alive hne
+    simp only [peelN] at hne ⊢
+    rcases ih (peel edges alive) hne with h | h
+    · exact Or.inl h
+    · by_cases hfix : peel edges alive = alive
+      · left
+        refine ⟨alive, ?_, hfix⟩
+        intro he
+        subst he
+        rw [show peel edges [] = [] from rfl, peelN_nil] at hne
+        exact hne rfl
+      · right
+        have hle : (peel edges alive).length ≤ alive.length := List.length_filter_le _ _
+        have hlt : (peel edges alive).length ≠ alive.length := by
+          intro he
+          apply hfix
+          unfold peel at he ⊢
+          exact List.filter_eq_self.2 (List.length_filter_eq_length_iff.1 he)
+        omega
+
+theorem acyclicSpec_of_no_cycle (n : Nat) (g : Graph) (h : ∀ v, ¬ Path (succs g) v v) : acyclicSpec n g = true := by
+  unfold acyclicSpec
+  rw [List.isEmpty_iff]
+  refine Classical.byContradiction (fun hne => ?_)
+  rcases peel_fixpoint_or_shrink (allEdges n g) n (List.range n) hne with ⟨A, hA, hfix⟩ | hlen
+  · obtain ⟨v, hv⟩ := cycle_of_closed_set (succ := succs g) A hA (by
+      intro v hv
+      rw [← hfix] at hv
+      unfold peel at hv
+      obtain ⟨_, hany⟩ := List.mem_filter.1 hv
+      obtain ⟨e, he, hp⟩ := List.any_eq_true.1 hany
+      simp only [Bool.and_eq_true, beq_iff_eq, List.contains_iff_mem] at hp
+      exact ⟨e.2, hp.1 ▸ mem_allEdges he, hp.2⟩)
+    exact h v hv
+  · simp only [List.length_range] at hlen
+    have : (peelN (allEdges n g) n (List.range n)).length = 0 := by omega
+    exact hne (List.length_eq_zero_iff.1 this)
+
+
+theorem Closed.of_withNew {n : Nat} {g : Graph} {new : List Dep} (h : Closed n (withNew g new)) : Closed n g :=
+  ⟨fun d hd => h.1 d (List.mem_append.2 (Or.inl hd)), h.2⟩
+
 end Icinga.C07
